@@ -76,6 +76,8 @@ def uf_partial_witness(d):
     def hess(k, l):
         return lambda *q: (-1.0 if k == l else 0.0)
 
+    # U itself too (same values as the table filled by Target._call): substitutions (eps -> 0) may evaluate U at new points
+    d.uf_eval['U'] = lambda *q: -0.5 * sum(v * v for v in q) + 0.1 * sum(q)
     for k in range(4):
         d.uf_eval[f'd{k}~U'] = grad_k(k)
         for l in range(4):
@@ -204,7 +206,7 @@ def volume_task(task, tr):
         tr.sample({'case': label, 'det_nodes': d.size([det])})
         tr.assumptions.add('the Hessian of the uninterpreted target is symmetric (ground instances for the points visited)')
         cm.discharge(tr, d, domain(d, dim, dense, V), goals, label, replay=lambda v: replay_vol(dim, nparams, dense, steps, v),
-                     varnodes=V, sig_prefix='LeapfrogIntegrator:', defined=False, timeout=60, parallel=True)
+                     varnodes=V, sig_prefix='LeapfrogIntegrator:', defined=False, timeout=60 if cm_tier() == 'quick' else 300, parallel=True)
 
 
 def energy_task(task, tr):
@@ -324,6 +326,736 @@ def hastings_task(task, tr):
                      replay=lambda v: replay_hastings(dim, nparams, dense, steps, fail, v), varnodes=V,
                      sig_prefix='HMCOperator._step:',
                      defined=False, timeout=40, parallel=True)
+
+
+# ------------------------------------------------------------------ histories: objects built once, USED, then RETUNED
+# Every task above builds a fresh integrator / operator and uses it once.  In a run the same objects live for the whole
+# chain while their tunables are rewritten: the step size through the attribute, LeapfrogIntegrator.load_state_dict, the
+# operator's adaptable parameter (MCMCOperator.tune), the AdaptiveStepSize / DualAveragingStepSize adaptors,
+# find_reasonable_step_size, the checkpoint of the operator; the number of steps through load_state_dict; the mass
+# matrix through its Parameter (listener -> update_mass_matrices), the checkpoint and the MassMatrixAdaptor.
+# history_task: build (eps0, steps0, M0) -> one transition (anything computed lazily is now cached) -> change the
+# tunables through the real mutator with SYMBOLIC new values -> every clause of the property is decided for the state
+# the object REPORTS (integrator.step_size, integrator.steps, mass_matrix.tensor), against a leapfrog written directly
+# on the expression DAG (independent of integrator.py).
+HIST_KINDS = ('attr', 'attr2', 'lsd', 'setadapt', 'tune', 'adaptive', 'dualavg', 'frs', 'mass', 'oplsd', 'massadapt')
+HIST_WHAT = {
+    'attr': 'integrator.step_size = eps1',
+    'attr2': 'integrator.step_size = eps1; one transition; integrator.step_size = eps2',
+    'lsd': 'LeapfrogIntegrator.load_state_dict({step_size: eps1, steps: steps1})',
+    'setadapt': 'operator.adaptable_parameter = v (set_adaptable_parameter: step size exp(v))',
+    'tune': 'HMCOperator.tune(acc) without adaptors (MCMCOperator.tune -> set_adaptable_parameter)',
+    'adaptive': 'HMCOperator.tune(acc) -> AdaptiveStepSize.learn',
+    'dualavg': 'HMCOperator.tune(acc) -> DualAveragingStepSize.learn',
+    'frs': 'HMCOperator(..., find_reasonable_step_size=True): step size doubled / halved by find_reasonable_step_size',
+    'mass': 'mass_matrix.tensor = M1 (parameter listener -> update_mass_matrices)',
+    'oplsd': 'HMCOperator.load_state_dict(checkpoint with step size eps1, steps1 and mass matrix M1)',
+    'massadapt': 'HMCOperator.tune -> MassMatrixAdaptor.learn x5 (update_frequency 5) rewrites the mass matrix parameter',
+}
+DUAL_MU = -2.0
+_M0 = {False: [0.9, 1.4, 0.7], True: [[0.9, 0.1], [0.1, 1.4]]}
+_M1 = {False: [1.6, 0.6, 1.2], True: [[1.5, -0.15], [-0.15, 0.7]]}
+
+
+class _Patched:
+    """math -> SymMath15 in the operator / adaptation modules (exp / log of the symbolic step size stay symbolic) and
+    Hamiltonian.sample_momentum -> caller supplied draws; both restored on exit (worker processes are reused)."""
+
+    def __init__(self, sampler, sym=True):
+        self.sampler = sampler
+        self.sym = sym
+
+    def __enter__(self):
+        import torchtree.inference.hmc.adaptation as ad
+        import torchtree.inference.hmc.hamiltonian as hm
+        import torchtree.inference.hmc.operator as ho
+        import torchtree.inference.mcmc.operator as om
+        import torchtree.ops.dual_averaging as da
+
+        self.mods = [ad, ho, om, da]
+        self.saved = [m.math for m in self.mods]
+        if self.sym:
+            from symtorch.ext_c15 import SymMath15
+
+            for m in self.mods:
+                m.math = SymMath15()
+        self.H = hm.Hamiltonian
+        self.saved_sample = hm.Hamiltonian.sample_momentum
+        sampler = self.sampler
+        hm.Hamiltonian.sample_momentum = lambda self_, mass_matrix: sampler(mass_matrix)
+        return self
+
+    def __exit__(self, *exc):
+        for m, s in zip(self.mods, self.saved):
+            m.math = s
+        self.H.sample_momentum = self.saved_sample
+        return False
+
+
+def build_retunable(how, model, params, eps0, steps0, mass):
+    """the objects of one chain: integrator, (adaptors,) operator - built ONCE with (eps0, steps0, mass)"""
+    from torchtree.inference.hmc.adaptation import AdaptiveStepSize, DualAveragingStepSize, MassMatrixAdaptor
+    from torchtree.inference.hmc.integrator import LeapfrogIntegrator
+    from torchtree.inference.hmc.operator import HMCOperator
+
+    integ = LeapfrogIntegrator('leapfrog', steps0, eps0)
+    adaptors = []
+    if how == 'adaptive':
+        adaptors = [AdaptiveStepSize('ass', integ, 0.8)]
+    elif how == 'dualavg':
+        adaptors = [DualAveragingStepSize('das', integ, mu=DUAL_MU, delta=0.8)]
+    elif how == 'massadapt':
+        adaptors = [MassMatrixAdaptor('mma', params, mass, True, update_frequency=5)]
+    kw = {'find_reasonable_step_size': True} if how == 'frs' else {}
+    import contextlib
+    import io
+
+    with contextlib.redirect_stdout(io.StringIO()):  # the constructor prints the step size it found
+        op = HMCOperator('hmc', model, params, integ, mass, 1.0, 0.8, adaptors, **kw)
+    return integ, op
+
+
+def apply_history(how, integ, op, mass, params, inp, use, set_q):
+    """the retuning itself, through the real mutators; `inp` holds the new values (symbolic in the solver run, plain
+    numbers in the replay), use() = one operator transition, set_q(k) = put the k-th recorded chain state into the parameters"""
+    if how == 'attr':
+        integ.step_size = inp['eps1']
+    elif how == 'attr2':
+        integ.step_size = inp['eps1']
+        use()
+        integ.step_size = inp['eps2']
+    elif how == 'lsd':
+        integ.load_state_dict({'id': integ.id, 'step_size': inp['eps1'], 'steps': inp['steps1']})
+    elif how == 'setadapt':
+        op.adaptable_parameter = inp['v']
+    elif how in ('tune', 'adaptive', 'dualavg'):
+        op.tune(inp['acc'], 1, True)
+    elif how == 'frs':
+        pass  # done by the constructor of the operator
+    elif how == 'mass':
+        mass.tensor = inp['M1']
+    elif how == 'oplsd':
+        state = {'id': op.id, 'adapt_count': 3, 'accept': 2, 'reject': 1, 'accept_window': [1, 0, 1],
+                 'mass_matrix': {'id': mass.id, 'type': 'torchtree.Parameter', 'tensor': inp['M1'].tolist(),
+                                 'dtype': 'torch.float64', 'nn': False},
+                 'integrator': {'id': integ.id, 'step_size': inp['eps1'], 'steps': inp['steps1']}}
+        op.load_state_dict(state)
+    elif how == 'massadapt':
+        for k in range(5):
+            set_q(k)
+            op.tune(inp['acc'], k + 1, True)
+    else:
+        raise KeyError(how)
+
+
+def textbook_dag(d, q, p, minv, eps, steps):
+    """leapfrog for the log density U written on the DAG: gradient = the derivative symbols d_k U of the uninterpreted
+    target; minv = list (diagonal) or list of rows (dense) of node ids; returns (q', p')"""
+    n = len(q)
+
+    def grad(x):
+        return [d.uf(f'd{k}~U', *x) for k in range(n)]
+
+    def vel(pp):
+        if isinstance(minv[0], list):
+            out = []
+            for i in range(n):
+                acc = 0
+                for j in range(n):
+                    acc = d.add(acc, d.mul(minv[i][j], pp[j]))
+                out.append(acc)
+            return out
+        return [d.mul(minv[i], pp[i]) for i in range(n)]
+
+    half = d.mul(d.const(0.5), eps)
+    g = grad(q)
+    p = [d.add(a, d.mul(half, b)) for a, b in zip(p, g)]
+    for _ in range(steps):
+        q = [d.add(a, d.mul(eps, b)) for a, b in zip(q, vel(p))]
+        g = grad(q)
+        p = [d.add(a, d.mul(eps, b)) for a, b in zip(p, g)]
+    p = [d.sub(a, d.mul(half, b)) for a, b in zip(p, g)]
+    return q, p
+
+
+def kinetic_dag(d, p, minv):
+    n = len(p)
+    acc = 0
+    for i in range(n):
+        for j in range(n):
+            m = minv[i][j] if isinstance(minv[0], list) else (minv[i] if i == j else 0)
+            acc = d.add(acc, d.mul(d.mul(p[i], m), p[j]))
+    return d.mul(d.const(0.5), acc)
+
+
+def sym_id(x):
+    d = cur().dag
+    if isinstance(x, SymFloat):
+        return x.nid
+    if isinstance(x, SymTensor):
+        return int(x._ids.reshape(-1)[0])
+    return d.const(float(x))
+
+
+def history_task(task, tr):
+    from torchtree.inference.hmc.adaptation import (AdaptiveStepSize, DualAveragingStepSize, MassMatrixAdaptor,
+                                                    find_reasonable_step_size)
+    from torchtree.inference.hmc.hamiltonian import Hamiltonian
+    from torchtree.inference.hmc.integrator import LeapfrogIntegrator
+    from torchtree.inference.hmc.operator import HMCOperator
+    from torchtree.inference.mcmc.operator import MCMCOperator
+
+    _, how, dim, nparams, dense, steps0, steps1, vol = task
+    if how == 'massadapt' and dense:
+        raise ValueError('massadapt histories: diagonal mass matrices only (stated in the bounds)')
+    cfg = (how, dim, nparams, dense, steps0, steps1)
+    label = f'retuned object [{HIST_WHAT[how]}] d={dim} params={nparams} dense={dense} steps={steps0}->{steps1}'
+    tr.fn(LeapfrogIntegrator.__call__, LeapfrogIntegrator.load_state_dict, HMCOperator._step, HMCOperator.set_adaptable_parameter,
+          HMCOperator.update_mass_matrices, HMCOperator.handle_parameter_changed, HMCOperator._load_state_dict,
+          HMCOperator.tune, MCMCOperator.tune, Hamiltonian.kinetic_energy)
+    if how == 'adaptive':
+        tr.fn(AdaptiveStepSize.learn)
+    if how == 'dualavg':
+        tr.fn(DualAveragingStepSize.learn)
+    if how == 'massadapt':
+        tr.fn(MassMatrixAdaptor.learn)
+    if how == 'frs':
+        tr.fn(find_reasonable_step_size)
+    tr.stubs.add('Hamiltonian.sample_momentum: the drawn momentum is an arbitrary symbolic vector')
+    tr.stubs.add('math module of the hmc operator / adaptation / mcmc operator / dual averaging modules -> SymMath '
+                 '(exp / log of the symbolic step size are uninterpreted)')
+    tr.bounds['retuned objects'] = ('one integrator / operator per history, one transition before the change, one change '
+                                    '(attr2: two) through each mutator of step size, number of steps and mass matrix; '
+                                    'dimension <= 2 (3 with a diagonal mass matrix and three parameters), steps <= 2 quick / 3 thorough; new values symbolic')
+    try:
+        _history_symbolic(task, tr, cfg, label)
+    except Exception as e:  # noqa: BLE001
+        # the symbolic run of the history died inside the library: does the real code die on the same history too?
+        ok, detail = replay_history(cfg, 'runs', {})
+        if ok:
+            tr.violation('LeapfrogIntegrator:retuned-object:raises', f'{label}: the history cannot be run ({type(e).__name__}: {e}): {detail}',
+                         {'label': label, 'clause': 'runs', 'values': {}})
+            return
+        raise
+
+
+def _history_symbolic(task, tr, cfg, label):
+    from torchtree.core.parameter import Parameter
+
+    _, how, dim, nparams, dense, steps0, steps1, vol = task
+    draws = []
+
+    def sampler(mm):
+        k = len(draws)
+        pv = new_vars(f'mom{k}', torch.tensor([0.7 - 0.5 * j + 0.1 * k for j in range(dim)], dtype=torch.float64))
+        draws.append(pv)
+        return pv
+
+    with tracing() as t, _Patched(sampler):
+        d = t.dag
+        params, p0, _im, eps0, _integ, model = setup(dim, nparams, dense, True, steps0)
+        qvars = [p.tensor._ids.clone() for p in params]
+        q0 = [i for x in qvars for i in x.tolist()]
+
+        def symM(name, vals):
+            m = new_vars(name, torch.tensor(vals, dtype=torch.float64)[:dim] if not dense else torch.tensor(vals, dtype=torch.float64)[:dim, :dim])
+            if dense:
+                ids = m._ids.clone()
+                for i in range(dim):
+                    for j in range(i):
+                        ids[i, j] = ids[j, i]
+                m = from_ids(ids)
+            return m
+
+        mass = Parameter('mass', symM('M', _M0[dense]))
+        samples = [new_vars(f'x{k}', torch.tensor([0.2 + 0.35 * k - 0.1 * j * (k % 3) for j in range(dim)], dtype=torch.float64))
+                   for k in range(5)] if how == 'massadapt' else []
+
+        def reset():
+            for p_, ids in zip(params, qvars):
+                p_.tensor = from_ids(ids.clone())
+
+        def set_q(k):
+            off = 0
+            for p_ in params:
+                n = p_.shape[-1]
+                p_.tensor = from_ids(samples[k]._ids[off:off + n].clone())
+                off += n
+
+        def use():
+            op.step()
+            reset()
+
+        integ, op = build_retunable(how, model, params, eps0, steps0, mass)
+        reset()
+        use()
+        inp = {'eps1': mkfloat(d.var('eps1', 0.07)), 'eps2': mkfloat(d.var('eps2', 0.19)), 'steps1': steps1,
+               'v': mkfloat(d.var('v', -2.9)), 'acc': new_vars('acc', torch.tensor(0.65, dtype=torch.float64)),
+               'M1': symM('M1', _M1[dense])}
+        apply_history(how, integ, op, mass, params, inp, use, set_q)
+        reset()
+        n_pre = len(draws)
+        # ---- the state the objects REPORT after the history
+        live = sym_id(integ.step_size)
+        L = integ.steps
+        Mlive = mass.tensor
+        if abs(d.vals[live] - d.vals[sym_id(eps0)]) < 1e-9 and how not in ('mass', 'massadapt'):
+            tr.inconc(f'{label}: the history left the step size unchanged at the witness: the obligations would be vacuous')
+            return
+        if how in ('mass', 'oplsd', 'massadapt') and torch.allclose(Mlive._v, torch.tensor(_M0[dense], dtype=torch.float64)[:dim] if not dense else torch.tensor(_M0[dense], dtype=torch.float64)):
+            tr.inconc(f'{label}: the history left the mass matrix unchanged at the witness: the obligations would be vacuous')
+            return
+        hy_sym = []
+        if dense:
+            W = torch.inverse(Mlive)  # functional stub: the symbols of the inverse of THIS matrix + its contract
+            minv = W._ids.tolist()
+            con = [c for c in t.contracts if c['kind'] == 'inverse' and c['W']._ids.tolist() == minv][-1]
+            contract = list(con['left'].values()) + list(con['right'].values())
+            hy_sym = [d.eq(minv[i][j], minv[j][i]) for i in range(dim) for j in range(i)]
+            tr.stubs.add('torch.inverse: functional contract stub (W M = M W = I)')
+        else:
+            minv = [d.div(1, int(i)) for i in Mlive._ids.tolist()]
+            contract = []
+        goals = []
+        SIG = 'LeapfrogIntegrator:retuned-object:'
+        # (0) what the object reports is what was set
+        want_live = {'attr': lambda: sym_id(inp['eps1']), 'attr2': lambda: sym_id(inp['eps2']), 'lsd': lambda: sym_id(inp['eps1']),
+                     'oplsd': lambda: sym_id(inp['eps1']), 'setadapt': lambda: d.uf('exp', sym_id(inp['v']))}.get(how)
+        if want_live is not None:
+            goals.append(('step size and number of steps reported by the integrator / operator / state_dict are the values that were set',
+                          d.and_(d.eq(live, want_live()), d.eq(sym_id(op.tuning_parameter), live),
+                                 d.eq(sym_id(integ.state_dict()['step_size']), live),
+                                 d.bconst(integ.state_dict()['steps'] == (steps1 if how in ('lsd', 'oplsd') else steps0))),
+                          [], SIG + 'reported-tunables'))
+        if how in ('mass', 'oplsd'):
+            goals.append(('the mass matrix parameter holds the value that was set', d.and_(*[d.eq(int(a), int(b)) for a, b in zip(Mlive._ids.reshape(-1).tolist(), inp['M1']._ids.reshape(-1).tolist())]),
+                          [], 'HMCOperator:retuned-object:reported-mass-matrix'))
+        used = op.inverse_mass_matrix
+        goals.append(('the inverse mass matrix the operator holds is the inverse of the CURRENT mass matrix parameter',
+                      d.and_(*[d.eq(int(a), b) for a, b in zip(used._ids.reshape(-1).tolist(),
+                                                               [x for r in minv for x in r] if dense else minv)]),
+                      contract, 'HMCOperator:retuned-object:inverse-mass-matrix'))
+        # (1) one trajectory of the retuned integrator against the leapfrog written on the DAG
+        U0 = sym_id(model())
+        pm = integ(model, params, p0, used)
+        q1 = [i for p in params for i in p.tensor._ids.tolist()]
+        U1 = sym_id(model())
+        qT, pT = textbook_dag(d, q0, p0._ids.tolist(), minv, live, L)
+        goals.append(('trajectory == leapfrog (half step, full steps, half step back) with the CURRENT step size, number of steps and inverse mass matrix',
+                      d.and_(*([d.eq(a, b) for a, b in zip(q1, qT)] + [d.eq(a, b) for a, b in zip(pm._ids.tolist(), pT)])),
+                      [], SIG + 'trajectory'))
+        # (2) flip and return
+        back = integ(model, params, -pm, used)
+        q2 = [i for p in params for i in p.tensor._ids.tolist()]
+        goals.append(('flip-and-return: q(after) == q and p(after) == -p',
+                      d.and_(*([d.eq(a, b) for a, b in zip(q2, q0)] + [d.eq(a, d.neg(b)) for a, b in zip(back._ids.tolist(), p0._ids.tolist())])),
+                      [], SIG + 'reversibility'))
+        goals.append(('requires_grad switched off on return', d.bconst(all(p.requires_grad is False for p in params)), [],
+                      SIG + 'requires_grad'))
+        # (3) energy error as a function of the CURRENT step size: vanishes to first order at 0
+        K0 = kinetic_dag(d, p0._ids.tolist(), minv)
+        K1 = kinetic_dag(d, pm._ids.tolist(), minv)
+        dH = d.sub(d.add(d.neg(U1), K1), d.add(d.neg(U0), K0))
+        if d.ops[live] == 'var':
+            e = live
+        elif d.ops[live] == 'uf':
+            e = d.var('h_live', d.vals[live])
+            dH = d.substitute([dH], {live: e})[0]
+        else:  # find_reasonable_step_size: eps0 * 2^k - differentiate along eps0
+            e = sym_id(eps0)
+        dH0 = d.substitute([dH], {e: 0})[0]
+        g0 = d.substitute([d.grad(dH, [e], honour_stops=False)[0]], {e: 0})[0]
+        goals.append(('energy error vanishes when the CURRENT step size -> 0', d.eq(dH0, 0), hy_sym, SIG + 'energy-order'))
+        goals.append(('d(energy error)/d(CURRENT step size) vanishes at 0 (error is O(eps^2) in the step size the object reports)',
+                      d.eq(g0, 0), hy_sym, SIG + 'energy-order'))
+        if dense:
+            goals.append(('the inverse of the symmetric mass matrix is symmetric (lemma used by the energy goals)',
+                          d.and_(*hy_sym), contract, SIG + 'inverse-symmetric'))
+        # (4) the operator's transition after the history
+        reset()
+        ret = sym_id(op.step())
+        mom = draws[-1]
+        after = [i for p in params for i in p.tensor._ids.tolist()]
+        qS, pS = textbook_dag(d, q0, mom._ids.tolist(), minv, live, L)
+        goals.append(('Hastings term == K(p_start) - K(p_end), K = p^T M^-1 p / 2 with the CURRENT mass matrix, p_end of the leapfrog with the CURRENT step size',
+                      d.eq(ret, d.sub(kinetic_dag(d, mom._ids.tolist(), minv), kinetic_dag(d, pS, minv))), [],
+                      'HMCOperator._step:retuned-object:hastings'))
+        goals.append(('proposed position == end point of the leapfrog with the CURRENT tunables', d.and_(*[d.eq(a, b) for a, b in zip(after, qS)]),
+                      [], 'HMCOperator._step:retuned-object:proposal'))
+        goals.append(('one momentum draw per successful transition', d.bconst(len(draws) == n_pre + 1), [],
+                      'HMCOperator._step:retuned-object:draws'))
+        # (5) volume
+        if vol:
+            import C07
+
+            z0 = q0 + p0._ids.tolist()
+            z1 = q1 + pm._ids.tolist()
+            J = [d.grad(a, z0, honour_stops=False) for a in z1]
+            det = C07.det_leibniz(d, J)
+            goals.append(("det d(q',p')/d(q,p) == 1", d.eq(det, 1), hess_symmetry(d, [det]), SIG + 'volume'))
+            tr.assumptions.add('the Hessian of the uninterpreted target is symmetric (ground instances for the points visited)')
+        tr.witness_runs += 1
+        tr.ops_checked += t.nchecked
+        tr.regions += 1
+        if t.concretized:
+            tr.inconc(f'{label}: concretised {t.concretized[:2]}')
+            return
+        roots = [g[1] for g in goals] + [h for g in goals for h in g[2]]
+        V = {d.args[i][0]: i for i in d.topo(roots) if d.ops[i] == 'var'}
+        dom = [d.lt(0, i) for n, i in V.items() if n in ('eps', 'eps1', 'eps2', 'h_live')]
+        if dense:
+            for nm in ('M', 'M1'):
+                if f'{nm}[0,0]' in V:
+                    dom.append(d.lt(0, V[f'{nm}[0,0]']))
+        else:
+            dom += [d.lt(0, i) for n, i in V.items() if n.startswith('M[') or n.startswith('M1[')]
+        if how == 'massadapt':
+            # the adaptor writes 1 / (regularised variance): positive, hence non-zero
+            dom += [d.lt(0, int(i)) for i in Mlive._ids.tolist()]
+            tr.assumptions.add('MassMatrixAdaptor: the regularised variance it inverts is positive')
+        pcs = list(t.pcs) if how != 'frs' else []
+        if how == 'frs':
+            tr.assumptions.add('find_reasonable_step_size: the goals are proved for every step size c * eps0 (c = the power of two '
+                               'reached at the witness), without the path conditions of the search loop (superset of the region)')
+        tr.sample({'case': label, 'live_step_size': d.to_str(live, 5), 'steps': L, 'n_path_conditions': len(t.pcs),
+                   'momentum_draws': len(draws)})
+        discharge_each(tr, d, dom + pcs, goals, label, V, lambda clause, vals: replay_history(cfg, clause, vals),
+                       timeout=60 if cm_tier() == 'quick' else 300, threads=4 if cm_tier() == 'quick' else 2)
+
+
+def cm_tier():
+    import os
+
+    return os.environ.get('VERIF_TIER', 'quick')
+
+
+def discharge_each(tr, d, hyps, goals, label, V, replay, timeout=60.0, threads=4):
+    """cm.discharge with one replay PER GOAL: goal = (text, node, extra hyps, signature); the clause handed to the replay
+    is the last component of the signature.  unsat = proved; sat -> replay of the solver's point, then of the witness,
+    on the real code (plain tensors); not reproduced / unknown -> inconclusive."""
+    from concurrent.futures import ThreadPoolExecutor
+
+    from symtorch.explore import _to_float, prove
+
+    def run(g):
+        return prove(d, list(hyps) + list(g[2]), g[1], timeout=timeout, get_values=list(V.values()), tr=tr, label=g[0],
+                     parallel=True)
+
+    with ThreadPoolExecutor(max_workers=threads) as ex:
+        results = list(ex.map(run, goals))
+    wit = {n: d.vals[i] for n, i in V.items()}
+    for g, (st, r, _text) in zip(goals, results):
+        if st == 'proved':
+            continue
+        clause = g[3].rsplit(':', 1)[1]
+        tries = [wit]
+        if st == 'refuted':
+            tries.insert(0, {n: _to_float(r.values[i]) for n, i in V.items() if i in r.values})
+        detail = ''
+        for vals in tries:
+            ok, detail = replay(clause, vals)
+            if ok:
+                how = 'fails at' if st == 'refuted' else 'solver undecided, witness separates at'
+                tr.violation(g[3], f'{label}: {g[0]} {how} {vals}: {detail}', {'label': label, 'clause': clause, 'values': vals})
+                break
+        else:
+            if st == 'refuted':
+                tr.inconc(f'{label}: counterexample for "{g[0]}" did not reproduce on the real code ({detail})')
+            else:
+                tr.inconc(f'{label}: "{g[0]}" undecided by the solver portfolio ({r.raw[:100] if r else ""})')
+
+
+# ------------------------------------------------------------------ replay of a history on the real code (plain tensors)
+def _sq(x, lo=1e-3, span=0.3):
+    """step sizes of the solver's point mapped into (lo, lo + span), strictly monotone in |x| (distinct stay distinct)"""
+    x = abs(float(x))
+    return lo + span * x / (1.0 + x)
+
+
+def _cl(x, a=3.0):
+    return max(-a, min(a, float(x)))
+
+
+def logp_real(q):
+    return -(0.5 * q * q).sum() - 0.25 * (q ** 4).sum() + 0.3 * q.prod()
+
+
+def textbook_real(q, p, minv, eps, steps):
+    """leapfrog written out independently of integrator.py (gradient by torch.autograd on the pure function)"""
+    def grad(x):
+        x = x.clone().requires_grad_()
+        return torch.autograd.grad(logp_real(x), x)[0]
+
+    def vel(pp):
+        return minv @ pp if minv.dim() == 2 else minv * pp
+
+    q, p = q.clone(), p.clone()
+    g = grad(q)
+    p = p + 0.5 * eps * g
+    for _ in range(steps):
+        q = q + eps * vel(p)
+        g = grad(q)
+        p = p + eps * g
+    p = p - 0.5 * eps * g
+    return q, p
+
+
+class RealHistory:
+    """the plain-tensor twin of the symbolic history: same constructor, same transition before the change, same mutator"""
+
+    def __init__(self, cfg, vals, force=None):
+        import math
+
+        from torchtree.core.model import CallableModel
+        from torchtree.core.parameter import Parameter
+
+        how, dim, nparams, dense, steps0, steps1 = cfg
+        self.cfg = cfg
+        force = force or {}
+        f64 = torch.float64
+        sizes = [dim] if nparams == 1 else [1] * dim
+        if nparams == 3:
+            sizes = [1, 1, dim - 2]
+        self.q0 = []
+        k = 0
+        for i, sz in enumerate(sizes):
+            self.q0.append(torch.tensor([_cl(vals.get(f'q{i}[{j}]', 0.3 + 0.4 * (k + j))) for j in range(sz)], dtype=f64))
+            k += sz
+        params = self.params = [Parameter(f'x{i}', x.clone()) for i, x in enumerate(self.q0)]
+
+        class T(CallableModel):
+            def __init__(self):
+                super().__init__('t')
+                for i, p in enumerate(params):
+                    setattr(self, f'p{i}', p)
+
+            def _call(self, *a, **k):
+                return logp_real(torch.cat([p.tensor for p in params], -1))
+
+            def _sample_shape(self):
+                return torch.Size([])
+
+            @classmethod
+            def from_json(cls, data, dic):
+                raise NotImplementedError
+
+        self.model = T()
+        self.p0 = torch.tensor([_cl(vals.get(f'p[{j}]', 0.7 - 0.5 * j)) for j in range(dim)], dtype=f64)
+
+        def spd(name, default):
+            if dense:
+                g = lambda i, j: vals.get(f'{name}[{i},{j}]', default[i][j])
+                a = min(abs(g(0, 0)), 5.0) + 0.1
+                if dim == 1:
+                    return torch.tensor([[a]], dtype=f64)
+                b = _cl(g(0, 1), 2.0)
+                c = min(abs(g(1, 1)), 5.0) + b * b / a + 0.1
+                return torch.tensor([[a, b], [b, c]], dtype=f64)
+            return torch.tensor([min(abs(vals.get(f'{name}[{j}]', default[j])), 5.0) + 0.05 for j in range(dim)], dtype=f64)
+
+        self.mass = Parameter('mass', spd('M', _M0[dense]))
+        self.M0 = self.mass.tensor.clone()
+        eps0 = force.get('eps', _sq(vals.get('eps', 0.11)))
+        self.inp = {'eps1': force.get('eps1', _sq(vals.get('eps1', 0.07))), 'eps2': force.get('eps2', _sq(vals.get('eps2', 0.19))),
+                    'steps1': steps1,
+                    'v': force.get('v', math.log(_sq(math.exp(_cl(vals.get('v', -2.9), 20.0))))),
+                    'acc': torch.tensor(force.get('acc', min(1.0, max(0.0, float(vals.get('acc', 0.65))))), dtype=f64),
+                    'M1': spd('M1', _M1[dense])}
+        self.eps0 = eps0
+        self.samples = [torch.tensor([_cl(vals.get(f'x{k}[{j}]', 0.2 + 0.35 * k - 0.1 * j * (k % 3))) for j in range(dim)], dtype=f64)
+                        for k in range(5)]
+        self.vals = vals
+        self.dim = dim
+        self.draws = []
+
+    def sampler(self, mm):
+        k = len(self.draws)
+        m = torch.tensor([_cl(self.vals.get(f'mom{k}[{j}]', 0.7 - 0.5 * j + 0.1 * k)) for j in range(self.dim)], dtype=torch.float64)
+        self.draws.append(m)
+        return m.clone()
+
+    def reset(self):
+        for p_, x in zip(self.params, self.q0):
+            p_.tensor = x.clone()
+
+    def set_q(self, k):
+        off = 0
+        for p_ in self.params:
+            n = p_.shape[-1]
+            p_.tensor = self.samples[k][off:off + n].clone()
+            off += n
+
+    def use(self):
+        self.op.step()
+        self.reset()
+
+    def run(self):
+        """-> the state the objects report after the history (to be called inside `with _Patched(self.sampler, sym=False)`)"""
+        how, dim, nparams, dense, steps0, steps1 = self.cfg
+        self.integ, self.op = build_retunable(how, self.model, self.params, self.eps0, steps0, self.mass)
+        self.reset()
+        self.use()
+        apply_history(how, self.integ, self.op, self.mass, self.params, self.inp, self.use, self.set_q)
+        self.reset()
+        self.live = float(self.integ.step_size)
+        self.L = self.integ.steps
+        M = self.mass.tensor.detach()
+        self.minv = torch.linalg.inv(M) if dense else 1.0 / M  # independent of the operator
+        return self
+
+    def H(self, p):
+        K = 0.5 * (p @ (self.minv @ p if self.minv.dim() == 2 else self.minv * p))
+        return float(-logp_real(torch.cat([x.tensor.detach() for x in self.params], -1)) + K)
+
+    def energy_error(self):
+        self.reset()
+        h0 = self.H(self.p0)
+        pm = self.integ(self.model, self.params, self.p0.clone(), self.op.inverse_mass_matrix)
+        return abs(self.H(pm.detach()) - h0)
+
+
+ENERGY_FORCE = {  # two runs of the same history whose reported step sizes differ (both small)
+    'attr': ({'eps1': 0.04}, {'eps1': 0.02}), 'lsd': ({'eps1': 0.04}, {'eps1': 0.02}), 'oplsd': ({'eps1': 0.04}, {'eps1': 0.02}),
+    'attr2': ({'eps2': 0.04}, {'eps2': 0.02}), 'setadapt': ({'v': -3.2188758248682006}, {'v': -3.912023005428146}),
+    'tune': ({'eps': 0.03, 'acc': 1.0}, {'eps': 0.03, 'acc': 0.0}), 'adaptive': ({'eps': 0.03, 'acc': 1.0}, {'eps': 0.03, 'acc': 0.0}),
+    'dualavg': ({'acc': 0.8}, {'acc': 0.2}), 'mass': ({'eps': 0.04}, {'eps': 0.02}), 'massadapt': ({'eps': 0.04}, {'eps': 0.02}),
+}
+
+
+def replay_history(cfg, clause, vals):
+    """(reproduced, detail): the history is rebuilt on the real code with plain tensors and the clause is evaluated
+    against oracles that do not use integrator.py / operator.py (textbook leapfrog, own kinetic energy, own inverse)"""
+    import math
+
+    how, dim, nparams, dense, steps0, steps1 = cfg
+    if clause == 'inverse-symmetric':
+        return False, 'lemma about the inverse stub (nothing to run on the real code)'
+    rh = RealHistory(cfg, vals)
+    with _Patched(rh.sampler, sym=False):
+        try:
+            rh.run()
+        except Exception as e:  # noqa: BLE001 - the replay reports whatever the real code does
+            return True, f'the history raised {type(e).__name__}: {e}'
+        integ, op, params, model = rh.integ, rh.op, rh.params, rh.model
+        live, L, minv = rh.live, rh.L, rh.minv
+        q0 = torch.cat(rh.q0)
+        state = f'[reported step size {live!r}, steps {L}, built with step size {rh.eps0!r}]'
+        close = lambda a, b: torch.allclose(a, b, rtol=1e-8, atol=1e-10)
+        try:
+            if clause == 'reported-tunables':
+                want = {'attr': rh.inp['eps1'], 'attr2': rh.inp['eps2'], 'lsd': rh.inp['eps1'], 'oplsd': rh.inp['eps1'],
+                        'setadapt': math.exp(rh.inp['v'])}[how]
+                sd = integ.state_dict()
+                got = (live, float(op.tuning_parameter), float(sd['step_size']), sd['steps'])
+                exp_steps = steps1 if how in ('lsd', 'oplsd') else steps0
+                if any(abs(x - want) > 1e-12 * max(1.0, abs(want)) for x in got[:3]) or got[3] != exp_steps:
+                    return True, f'step size set to {want!r} (steps {exp_steps}) but step_size / tuning_parameter / state_dict report {got}'
+                return False, 'agree'
+            if clause == 'reported-mass-matrix':
+                if not torch.equal(rh.mass.tensor, rh.inp['M1']):
+                    return True, f'mass matrix set to {rh.inp["M1"].tolist()} but the parameter holds {rh.mass.tensor.tolist()}'
+                return False, 'agree'
+            if clause == 'inverse-mass-matrix':
+                if not torch.allclose(op.inverse_mass_matrix, minv, rtol=1e-9, atol=1e-12):
+                    return True, (f'after the history the mass matrix is {rh.mass.tensor.tolist()} (was {rh.M0.tolist()}) but the operator '
+                                  f'holds the inverse {op.inverse_mass_matrix.tolist()} instead of {minv.tolist()}')
+                return False, 'agree'
+            if clause in ('trajectory', 'reversibility', 'requires_grad'):
+                pm = integ(model, params, rh.p0.clone(), op.inverse_mass_matrix)
+                q1 = torch.cat([p.tensor.detach() for p in params])
+                if clause == 'trajectory':
+                    qT, pT = textbook_real(q0, rh.p0, minv, live, L)
+                    if not close(q1, qT) or not close(pm, pT):
+                        return True, (f'{state} integrator gives q={q1.tolist()} p={pm.tolist()}, leapfrog with the reported tunables '
+                                      f'gives q={qT.tolist()} p={pT.tolist()}')
+                    return False, 'agree'
+                back = integ(model, params, -pm, op.inverse_mass_matrix)
+                q2 = torch.cat([p.tensor.detach() for p in params])
+                if clause == 'requires_grad':
+                    if any(p.requires_grad for p in params):
+                        return True, 'requires_grad left on'
+                    return False, 'agree'
+                if not close(q2, q0) or not close(back, -rh.p0):
+                    return True, (f'{state} flip-and-return gives q={q2.tolist()} p={back.tolist()} instead of q={q0.tolist()} '
+                                  f'p={(-rh.p0).tolist()}')
+                return False, 'agree'
+            if clause in ('hastings', 'proposal', 'draws'):
+                n_pre = len(rh.draws)
+                ret = float(op.step())
+                mom = rh.draws[-1]
+                after = torch.cat([p.tensor.detach() for p in params])
+                qT, pT = textbook_real(q0, mom, minv, live, L)
+                K = lambda p: float(0.5 * (p @ (minv @ p if minv.dim() == 2 else minv * p)))
+                want = K(mom) - K(pT)
+                if clause == 'draws':
+                    return (len(rh.draws) != n_pre + 1), f'{len(rh.draws) - n_pre} momentum draw(s)'
+                if clause == 'hastings':
+                    if not abs(ret - want) <= 1e-8 * max(1.0, abs(want)):
+                        return True, (f'{state} step() returned {ret!r} but K(p_start) - K(p_end) = {want!r} for the leapfrog with the '
+                                      f'reported tunables and the current mass matrix {rh.mass.tensor.tolist()}')
+                    return False, 'agree'
+                if not close(after, qT):
+                    return True, f'{state} proposed position {after.tolist()} but the leapfrog with the reported tunables ends at {qT.tolist()}'
+                return False, 'agree'
+            if clause == 'runs':
+                integ(model, params, rh.p0.clone(), op.inverse_mass_matrix)
+                rh.reset()
+                op.step()
+                return False, 'the real code runs the history, a trajectory and a transition without raising'
+            if clause == 'volume':
+                h = 1e-6
+                z0 = torch.cat([q0, rh.p0])
+
+                def flow(z):
+                    k = 0
+                    for p in params:
+                        n = p.tensor.shape[-1]
+                        p.tensor = z[k:k + n].clone()
+                        k += n
+                    pm = integ(model, params, z[dim:].clone(), op.inverse_mass_matrix)
+                    return torch.cat([torch.cat([p.tensor.detach() for p in params]), pm.detach()])
+
+                J = torch.zeros(2 * dim, 2 * dim, dtype=torch.float64)
+                for j in range(2 * dim):
+                    e = torch.zeros(2 * dim, dtype=torch.float64)
+                    e[j] = h
+                    J[:, j] = (flow(z0 + e) - flow(z0 - e)) / (2 * h)
+                det = float(torch.linalg.det(J))
+                if abs(det - 1.0) > 1e-5:
+                    return True, f'{state} numerical Jacobian determinant of the leapfrog map = {det}'
+                return False, 'agree'
+        except Exception as e:  # noqa: BLE001
+            return True, f'{state} raised {type(e).__name__}: {e}'
+    if clause == 'energy-order':
+        if how == 'frs':
+            with _Patched(rh.sampler, sym=False):
+                err = rh.energy_error()
+                rh.reset()
+                h0 = rh.H(rh.p0)
+                qT, pT = textbook_real(q0, rh.p0, minv, live, L)
+                for p_, x in zip(params, torch.split(qT, [x.numel() for x in rh.q0])):
+                    p_.tensor = x.clone()
+                want = abs(rh.H(pT) - h0)
+            if abs(err - want) > 1e-8 * max(1.0, want):
+                return True, f'{state} energy error {err!r}, the leapfrog with the reported step size has {want!r}'
+            return False, 'agree'
+        out = []
+        for force in ENERGY_FORCE[how]:
+            r2 = RealHistory(cfg, vals, force)
+            with _Patched(r2.sampler, sym=False):
+                try:
+                    r2.run()
+                    out.append((r2.live, r2.energy_error(), r2.eps0))
+                except Exception as e:  # noqa: BLE001
+                    return True, f'the history raised {type(e).__name__}: {e}'
+        (hA, eA, cA), (hB, eB, cB) = out
+        if not hA > 1.2 * hB:
+            return False, f'the two histories report step sizes {hA}, {hB}: no separation'
+        if eB > 1e-13 and eA / eB < 0.7 * (hA / hB) ** 2:
+            return True, (f'energy error does not shrink quadratically with the step size the object reports: reported {hA!r} -> '
+                          f'error {eA!r}, reported {hB!r} -> error {eB!r} (objects built with step size {cA!r} / {cB!r})')
+        return False, f'energy errors {eA}, {eB} at reported step sizes {hA}, {hB}'
+    return False, f'no replay for clause {clause}'
 
 
 # ------------------------------------------------------------------ replays (real autograd, Gaussian-mixture target)
@@ -495,7 +1227,8 @@ def replay_hastings(dim, nparams, dense, steps, fail, vals):
 
 
 def run_task(task, tr):
-    {'rev': reversibility_task, 'vol': volume_task, 'energy': energy_task, 'hastings': hastings_task}[task[0]](task, tr)
+    {'rev': reversibility_task, 'vol': volume_task, 'energy': energy_task, 'hastings': hastings_task,
+     'hist': history_task}[task[0]](task, tr)
 
 
 def tasks_for(tier):
@@ -508,6 +1241,16 @@ def tasks_for(tier):
         ts += [('vol', 1, 1, False, 1), ('vol', 1, 1, False, 2), ('vol', 2, 1, False, 1), ('vol', 2, 2, True, 1)]
         ts += [('energy', 1, 1, False, 1, 'uf'), ('energy', 2, 1, False, 2, 'gauss'), ('energy', 2, 2, True, 1, 'uf')]
         ts += [('hastings', 2, 1, False, 2, False), ('hastings', 2, 2, True, 1, False), ('hastings', 1, 1, False, 2, True)]
+        # histories on ONE object: (kind, dim, params, dense, steps at construction, steps after the history, volume clause)
+        ts += [('hist', 'attr', 1, 1, False, 2, 2, True), ('hist', 'attr', 2, 2, True, 1, 1, False), ('hist', 'attr', 3, 3, False, 1, 1, False),
+               ('hist', 'attr2', 2, 1, False, 1, 1, False),
+               ('hist', 'lsd', 2, 2, False, 1, 2, True), ('hist', 'lsd', 1, 1, True, 2, 1, True),
+               ('hist', 'setadapt', 2, 1, False, 2, 2, False), ('hist', 'tune', 2, 2, False, 1, 1, False),
+               ('hist', 'adaptive', 1, 1, False, 2, 2, True), ('hist', 'dualavg', 2, 1, True, 1, 1, False),
+               ('hist', 'frs', 2, 2, False, 1, 1, False), ('hist', 'frs', 1, 1, True, 2, 2, False),
+               ('hist', 'mass', 2, 1, True, 2, 2, False), ('hist', 'mass', 2, 2, False, 1, 1, True),
+               ('hist', 'oplsd', 2, 2, False, 1, 2, False), ('hist', 'oplsd', 2, 1, True, 2, 1, False),
+               ('hist', 'massadapt', 2, 2, False, 1, 1, False)]
     else:
         for dim in (1, 2):
             for nparams in ((1,) if dim == 1 else (1, 2)):
@@ -522,6 +1265,18 @@ def tasks_for(tier):
                     ts.append(('hastings', dim, nparams, dense, 2, True))
         ts.append(('rev', 3, 3, False, 2))
         ts.append(('hastings', 3, 3, False, 1, False))
+        for how in HIST_KINDS:
+            for dim, nparams in ((1, 1), (2, 1), (2, 2)):
+                for dense in (False, True):
+                    if how == 'massadapt' and dense:
+                        continue
+                    for s0, s1 in ((1, 2), (2, 1), (2, 3)):
+                        changes_steps = how in ('lsd', 'oplsd')
+                        L = s1 if changes_steps else s0
+                        # the determinant: Leibniz expansion of a symbolic 2d x 2d Jacobian - dense d=2 only for one step
+                        vol = dim == 1 or (L <= 2 and not dense) or (L == 1 and how in ('attr', 'mass', 'oplsd', 'lsd'))
+                        ts.append(('hist', how, dim, nparams, dense, s0, s1, vol))
+            ts.append(('hist', how, 3, 3, False, 1, 2, False))
     return ts
 
 
@@ -530,6 +1285,18 @@ def body(chk):
                        'target (U(q), gradient and Hessian are uninterpreted function symbols produced by symbolic reverse '
                        'differentiation); reversibility, unit Jacobian determinant, second-order energy error and the '
                        'Hastings term are identities decided by the solver for all q, p, step sizes and SPD mass matrices')
+    chk.explanation += ('; histories: ONE integrator / operator is built, used for a transition, and then retuned through every '
+                        'mutator the library has (step_size attribute, LeapfrogIntegrator.load_state_dict, adaptable_parameter / '
+                        'MCMCOperator.tune, AdaptiveStepSize, DualAveragingStepSize, find_reasonable_step_size, the mass matrix '
+                        'parameter, MassMatrixAdaptor, HMCOperator.load_state_dict) with symbolic new values; the trajectory of the '
+                        'retuned object equals a leapfrog written on the expression DAG for the tunables the object reports, and '
+                        'flip-and-return, unit determinant, second-order energy error in the reported step size and the Hastings '
+                        'term (kinetic energy of the current mass matrix) are decided again on that object')
+    chk.total.bounds['hmc histories'] = ('one transition before the change, one change per history (attr2: two, with a transition in '
+                                         'between), then one trajectory, its reversal and one operator transition; MassMatrixAdaptor: '
+                                         'diagonal mass matrix, five samples, update_frequency 5; DualAveragingStepSize mu = -2; '
+                                         'find_reasonable_step_size: the search path taken at the witness (goals proved for every '
+                                         'step size c * eps0); stan_adaptation.py (warm-up schedule) not covered')
     chk.total.bounds['hmc'] = 'dimension <= 2, leapfrog steps <= 2 quick / 3 thorough, diagonal and dense SPD inverse mass matrix, 1 or 2 parameters per operator'
     chk.total.assumptions |= {'target differentiable with symmetric Hessian; autograd modelled by symbolic reverse differentiation '
                               '(validated against torch.autograd in the replays)',
